@@ -10,7 +10,7 @@ def mk_struct(ft_list, named, style, vis_i=0, raw=False, extra_attrs=()):
     needs = set()
     for ft in ft_list:
         needs.update(ft.needs)
-    names = ['value', 'r#type', 'b', 'c'] if raw else ['a', 'b', 'c', 'd']
+    names = [['r#type', 'r#ref', 'r#fn'][style % 3], 'r#value', 'b', 'c'] if raw else ['a', 'b', 'c', 'd']
     if named:
         fs = sx.named([sx.field(ft.s, name=names[i], vis=VIS[(vis_i + i) % 3]) for i, ft in enumerate(ft_list)])
     elif ft_list:
@@ -43,7 +43,7 @@ class C18(Prop):
                 FIELD_TYPES, [False, True], [0, 1, 2], enumerate(trait_lists), ['attr', 'derive']):
             if style > 0 and 'T' not in ft.needs:
                 continue
-            it, names = mk_struct([ft], named, style, vis_i=ti, raw=(named and ti == 1),
+            it, names = mk_struct([ft], named, style, vis_i=ti, raw=(named and ti in (1, 2)),
                                   extra_attrs=[sx.a_other(FOREIGN_ATTRS[ti % len(FOREIGN_ATTRS)])])
             out.append(self._inv(mode, tl, it, dict(
                 features=('single', 'named' if named else 'tuple', ft.name, 'style%d' % style, 'traits%d' % ti, mode),
